@@ -249,6 +249,8 @@ pub struct RefStream {
     flush_done_at: Option<usize>,
     /// distinct byte offsets ever put into a STREAM frame
     sent: BTreeSet<u64>,
+    /// final size announced in a RESET_STREAM frame
+    reset_final: Option<u64>,
 }
 
 pub(crate) struct Handle {
@@ -280,6 +282,8 @@ pub(crate) struct Endpoint {
     /// repeats a value and is not a decrease of the advertised limit
     adv_seen: BTreeSet<(u8, u64, u64)>,
     fresh_bytes_sent: u64,
+    /// connection credit claimed by RESET_STREAM final sizes beyond the bytes actually sent
+    reset_extra: u64,
     conn_error: Option<String>,
 }
 
@@ -378,6 +382,7 @@ impl Endpoint {
             adv_max_streams: [local.streams_bidi, local.streams_uni],
             adv_seen: BTreeSet::new(),
             fresh_bytes_sent: 0,
+            reset_extra: 0,
             conn_error: None,
         }
     }
@@ -838,13 +843,60 @@ impl Pipe {
                     let ep = &mut self.ep[side];
                     ep.fresh_bytes_sent += fresh;
                     ensure!(
-                        ep.fresh_bytes_sent <= ep.known_max_data,
+                        ep.fresh_bytes_sent + ep.reset_extra <= ep.known_max_data,
                         "c11/connection-limit-exceeded",
                         "{:?} has sent {} distinct stream bytes but the peer's connection limit known to it is {}",
                         ep.role,
                         ep.fresh_bytes_sent,
                         ep.known_max_data
                     );
+                }
+                Frame::StreamCtl(StreamCtlFrame::ResetStream(r)) => {
+                    // RFC 9000 §4.5: the final size is the flow-control credit the stream
+                    // consumes, at both levels; it may not exceed what the peer has granted
+                    let sid = r.stream_id();
+                    let fin = r.final_size();
+                    let ep = &self.ep[side];
+                    let limit = ep
+                        .known_stream_limit
+                        .get(&u64::from(sid))
+                        .copied()
+                        .unwrap_or(0)
+                        .max(initial_stream_limit(&cfg, side, sid));
+                    ensure!(
+                        fin <= limit,
+                        "c11/reset-final-size-exceeds-stream-limit",
+                        "{:?} sent RESET_STREAM for {sid:?} with final size {fin} but the peer's limit for that stream known to it is {limit}",
+                        ep.role
+                    );
+                    let d = self.dir_mut(side, sid);
+                    let largest = d.sent.iter().next_back().map_or(0, |o| o + 1);
+                    ensure!(
+                        fin >= largest,
+                        "c12/reset-final-size-below-sent",
+                        "RESET_STREAM for {sid:?} has final size {fin} after bytes up to {largest} were sent"
+                    );
+                    match d.reset_final {
+                        Some(prev) => ensure!(
+                            prev == fin,
+                            "c12/reset-final-size-changed",
+                            "RESET_STREAM for {sid:?} has final size {fin}, an earlier one had {prev}"
+                        ),
+                        None => {
+                            d.reset_final = Some(fin);
+                            let ep = &mut self.ep[side];
+                            ep.reset_extra += fin - largest;
+                            ensure!(
+                                ep.fresh_bytes_sent + ep.reset_extra <= ep.known_max_data,
+                                "c11/reset-final-size-exceeds-connection-limit",
+                                "{:?} has sent {} distinct stream bytes and claims {} more through RESET_STREAM final sizes, the peer's connection limit known to it is {}",
+                                ep.role,
+                                ep.fresh_bytes_sent,
+                                ep.reset_extra,
+                                ep.known_max_data
+                            );
+                        }
+                    }
                 }
                 Frame::MaxData(f) => {
                     let ep = &mut self.ep[side];
@@ -1320,11 +1372,12 @@ impl System for Pipe {
                 let n: String = rest.chars().take_while(|c| c.is_ascii_digit()).collect();
                 if let Ok(sent) = n.parse::<u64>() {
                     ensure!(
-                        sent == ep.fresh_bytes_sent,
+                        sent == ep.fresh_bytes_sent + ep.reset_extra,
                         "c11/connection-credit-accounting",
-                        "{:?} charged {sent} bytes to the connection window after sending {} distinct stream bytes",
+                        "{:?} charged {sent} bytes to the connection window after sending {} distinct stream bytes and claiming {} more through RESET_STREAM final sizes",
                         ep.role,
-                        ep.fresh_bytes_sent
+                        ep.fresh_bytes_sent,
+                        ep.reset_extra
                     );
                 }
             }
